@@ -262,4 +262,42 @@ pub proof fn cnt_remove<T>(s: Seq<T>, i: int, p: spec_fn(T) -> bool)
         assert(s.drop_last()[i] == s[i]);
     }
 }
+
+pub proof fn rsum_remove<T>(s: Seq<T>, j: int, f: spec_fn(T) -> real)
+    requires 0 <= j < s.len()
+    ensures rsum(s, f) == rsum(s.remove(j), f) + f(s[j])
+    decreases s.len()
+{
+    if j == s.len() - 1 { assert(s.remove(j) =~= s.drop_last()); }
+    else {
+        rsum_remove(s.drop_last(), j, f);
+        assert(s.remove(j).drop_last() =~= s.drop_last().remove(j));
+        assert(s.remove(j).last() == s.last());
+    }
+}
+/// a sum does not depend on the order of the terms (sequences with the same multiset of elements)
+pub proof fn rsum_multiset<T>(a: Seq<T>, b: Seq<T>, f: spec_fn(T) -> real)
+    requires a.to_multiset() == b.to_multiset()
+    ensures rsum(a, f) == rsum(b, f)
+    decreases a.len()
+{
+    a.to_multiset_ensures(); b.to_multiset_ensures();
+    if a.len() == 0 {
+        assert(b.len() == 0);
+    } else {
+        let x = a.last(); let a1 = a.drop_last();
+        a1.to_multiset_ensures();
+        assert(a =~= a1.push(x));
+        assert(a.to_multiset() =~= a1.to_multiset().insert(x));
+        assert(b.to_multiset().count(x) > 0);
+        assert(b.contains(x));
+        let j = choose|j: int| 0 <= j < b.len() && b[j] == x;
+        let b1 = b.remove(j);
+        assert(b1.to_multiset() =~= b.to_multiset().remove(x));
+        assert(a1.to_multiset() =~= b1.to_multiset());
+        rsum_multiset(a1, b1, f);
+        rsum_remove(b, j, f);
+    }
+}
+
 } // verus!
